@@ -332,8 +332,8 @@ pub struct ShapesProp;
 
 fn pool_size(tier: Tier) -> u8 {
     match tier {
-        Tier::Quick => 3,
-        Tier::Thorough => 4,
+        Tier::Quick => 4,
+        Tier::Thorough => 5,
     }
 }
 
@@ -515,7 +515,7 @@ impl Prop for ShapesProp {
         vec!["shadowing_free_left_of_binder", "shadowing_free_right_of_binder", "repeated_free_slot", "equivalent_pair_with_different_names", "inequivalent_pair"]
     }
     fn rule(&self) -> String {
-        "For a zoo language produced by define_language! (plain slots, Bind<AppliedId>, Bind<Bind<..>>, Bind before/after a free child, Bind<Slot>, slot next to a binder, payload types u32/i64/bool/char/Symbol, nullary): every variant template x every assignment of its slot positions from a pool of 3 (thorough 4) names x three name->slot schemes. Each node is judged against an independent scoping-aware analysis of its structural read-back: occurrence lists by position, public/private partition, slots(), to_syntax/from_syntax, weak_shape (renaming-equivalent to the node, bijection onto the node's free slots, apply_slotmap(bij) gives the node back up to bound names, idempotent), refresh_private (same node up to bound names, all bound names new), apply_slotmap with an injective renaming (renames exactly the free occurrences). All pairs of nodes of a template: shapes equal iff canonical forms (free names by first occurrence, bound names by binder order) are equal. Non-trivial = node with at least one slot.".into()
+        "For a zoo language produced by define_language! (plain slots, Bind<AppliedId>, Bind<Bind<..>>, Bind before/after a free child, Bind<Slot>, slot next to a binder, payload types u32/i64/bool/char/Symbol, nullary): every variant template x every assignment of its slot positions from a pool of 4 (thorough 5) names x three name->slot schemes. Each node is judged against an independent scoping-aware analysis of its structural read-back: occurrence lists by position, public/private partition, slots(), to_syntax/from_syntax, weak_shape (renaming-equivalent to the node, bijection onto the node's free slots, apply_slotmap(bij) gives the node back up to bound names, idempotent), refresh_private (same node up to bound names, all bound names new), apply_slotmap with an injective renaming (renames exactly the free occurrences). All pairs of nodes of a template: shapes equal iff canonical forms (free names by first occurrence, bound names by binder order) are equal. Non-trivial = node with at least one slot.".into()
     }
     fn assumptions(&self) -> Vec<String> {
         vec!["AppliedId children carry bijective maps (an invariant of the crate), so slot names inside one child are distinct".into()]
